@@ -19,3 +19,4 @@ open Spydr.Xform
 #print axioms uniquify_behind_original
 #print axioms uniquify_finishes
 #print axioms uniquify_correct
+#print axioms flatten_leftovers
